@@ -43,13 +43,18 @@ import (
 	"github.com/oasisprotocol/oasis-core/go/common/cbor"
 	"github.com/oasisprotocol/oasis-core/go/common/crypto/hash"
 	"github.com/oasisprotocol/oasis-core/go/common/quantity"
+	"github.com/oasisprotocol/oasis-core/go/common/version"
 	consensus "github.com/oasisprotocol/oasis-core/go/consensus/api"
 	"github.com/oasisprotocol/oasis-core/go/consensus/api/transaction"
 	"github.com/oasisprotocol/oasis-core/go/consensus/cometbft/abci"
 	cmtapi "github.com/oasisprotocol/oasis-core/go/consensus/cometbft/api"
+	governanceState "github.com/oasisprotocol/oasis-core/go/consensus/cometbft/apps/governance/state"
+	schedulerState "github.com/oasisprotocol/oasis-core/go/consensus/cometbft/apps/scheduler/state"
 	stakingState "github.com/oasisprotocol/oasis-core/go/consensus/cometbft/apps/staking/state"
+	governance "github.com/oasisprotocol/oasis-core/go/governance/api"
 	staking "github.com/oasisprotocol/oasis-core/go/staking/api"
 	"github.com/oasisprotocol/oasis-core/go/storage/mkvs"
+	upgrade "github.com/oasisprotocol/oasis-core/go/upgrade/api"
 )
 
 // ---- oracle ----------------------------------------------------------------------------------
@@ -152,6 +157,9 @@ type txgen struct {
 	w      *world
 	r      *hlib.Rng
 	nonces map[int]uint64
+	// governance script: 0 wait for the first election, 1 submit upgrade, 2 vote, 3 wait until it
+	// closed, 4 submit cancel, 5 vote, 6 done
+	govPhase int
 }
 
 func (g *txgen) addrOf(i int) staking.Address { return staking.NewAddress(g.w.accts[i].Public()) }
@@ -165,11 +173,14 @@ func (g *txgen) entityAddr(i int) staking.Address {
 	return staking.NewAddress(g.w.vals[i].ent.ID)
 }
 
-// gen produces a signed staking transaction from account `from` with the given nonce.
-func (g *txgen) gen(from int, nonce uint64, res *hlib.Result) []byte {
+// fee picks a fee: nil, below / at / above the consensus minimum gas price.
+func (g *txgen) fee(res *hlib.Result) *transaction.Fee {
 	r := g.r
 	var fee *transaction.Fee
-	if !g.w.tie { // fees are partly credited to escrow and would break the engineered tie
+	if g.w.tie {
+		// zero-amount fees: gas is available, nothing is credited to escrow (keeps the engineered tie)
+		fee = &transaction.Fee{Gas: transaction.Gas(2000 + r.Intn(3000))}
+	} else { // fees are partly credited to escrow and would break the engineered tie
 		gas := uint64(2000 + r.Intn(3000))
 		min := g.w.minGas
 		switch k := r.Intn(10); {
@@ -186,6 +197,88 @@ func (g *txgen) gen(from int, nonce uint64, res *hlib.Result) []byte {
 			res.Count("fee:above-minimum")
 		}
 	}
+	return fee
+}
+
+// okFee is a fee that satisfies the consensus minimum gas price.
+func (g *txgen) okFee() *transaction.Fee {
+	if g.w.tie {
+		return &transaction.Fee{Gas: 5000} // zero amount: nothing is credited to anybody's escrow
+	}
+	return &transaction.Fee{Amount: q(5000 * g.w.minGas), Gas: 5000}
+}
+
+func (g *txgen) signed(from int, tx *transaction.Transaction) []byte {
+	sig, err := transaction.Sign(g.w.signers[from], tx)
+	if err != nil {
+		panic(err)
+	}
+	return cbor.Marshal(sig)
+}
+
+// advanceGov moves the governance script on, looking at the oracle's committed state.
+func (g *txgen) advanceGov(o *replica) {
+	tree := openTree(o)
+	if tree == nil {
+		return
+	}
+	defer tree.Close()
+	ctx := context.Background()
+	switch g.govPhase {
+	case 0:
+		if vals, err := schedulerState.NewImmutableState(tree).CurrentValidators(ctx); err == nil && len(vals) > 0 {
+			g.govPhase = 1
+		}
+	case 3:
+		if p, err := governanceState.NewImmutableState(tree).Proposal(ctx, 1); err == nil && p.State != governance.StateActive {
+			g.govPhase = 6
+			if p.State == governance.StatePassed {
+				g.govPhase = 4
+			}
+		}
+	}
+}
+
+// governanceTxs are included in every candidate block of the given (relative) height: an upgrade
+// proposal that all validator entities vote for (it passes at the next epoch transition and is
+// handed to every node's LOCAL upgrade manager), later a proposal cancelling it, also voted in.
+func (g *txgen) governanceTxs(o *replica, res *hlib.Result) [][]byte {
+	g.advanceGov(o)
+	ent := func(i int) int { return numAccounts + numValidators + i } // signer index of entity i
+	var out [][]byte
+	votes := func(id uint64) {
+		for i := 0; i < numValidators; i++ {
+			out = append(out, g.signed(ent(i), governance.NewCastVoteTx(g.nonces[ent(i)], g.okFee(), &governance.ProposalVote{ID: id, Vote: governance.VoteYes})))
+			res.Count("tx:gov-cast-vote")
+		}
+	}
+	switch g.govPhase {
+	case 1:
+		desc := upgrade.Descriptor{Versioned: cbor.NewVersioned(upgrade.LatestDescriptorVersion), Handler: "verif-c01-upgrade",
+			Target: version.Versions, Epoch: g.w.doc.Beacon.Base + 40}
+		out = append(out, g.signed(ent(3), governance.NewSubmitProposalTx(g.nonces[ent(3)], g.okFee(),
+			&governance.ProposalContent{Upgrade: &governance.UpgradeProposal{Descriptor: desc}})))
+		res.Count("tx:gov-submit-upgrade")
+		g.govPhase = 2
+	case 2:
+		votes(1)
+		g.govPhase = 3
+	case 4:
+		out = append(out, g.signed(ent(2), governance.NewSubmitProposalTx(g.nonces[ent(2)], g.okFee(),
+			&governance.ProposalContent{CancelUpgrade: &governance.CancelUpgradeProposal{ProposalID: 1}})))
+		res.Count("tx:gov-submit-cancel-upgrade")
+		g.govPhase = 5
+	case 5:
+		votes(2)
+		g.govPhase = 6
+	}
+	return out
+}
+
+// gen produces a signed staking transaction from account `from` with the given nonce.
+func (g *txgen) gen(from int, nonce uint64, res *hlib.Result) []byte {
+	r := g.r
+	fee := g.fee(res)
 	amt := func() quantity.Quantity {
 		switch r.Intn(6) {
 		case 0:
@@ -418,8 +511,8 @@ func (s *session) exec(d *driver, o op, height int64) {
 				k = "honest-path:own-block-back:CACHE-MISS"
 			}
 			d.res.Count(k)
-			if b.height == 1 {
-				d.res.Count(k + ":height-1-empty-commit")
+			if b.height == d.w.doc.Height {
+				d.res.Count(k + ":first-height-empty-commit")
 			}
 		}
 		s.lastPrepared = nil
@@ -660,12 +753,14 @@ func (d *driver) runHistory(seed uint64, heights int, rep int) *histOut {
 	evidenceUsed := false
 	blockTime := w.genesisT
 
-	for h := int64(1); h <= int64(heights); h++ {
+	for rel := int64(1); rel <= int64(heights); rel++ {
+		h := w.doc.Height + rel - 1 // absolute block height (the genesis may start above 1)
 		g.refreshNonces(oracle)
+		forced := g.governanceTxs(oracle, res)
 		pool := g.mempool(2+rng.Intn(8), res)
 		blockTime = blockTime.Add(time.Duration(1+rng.Intn(5)) * time.Second)
 		var lcBase types.CommitInfo
-		if h > 1 {
+		if rel > 1 {
 			lcBase = d.commitInfo(rng, vs, rng.Chance(1, 3) || w.tie)
 		}
 		ncand := 1 + rng.Intn(3)
@@ -682,19 +777,19 @@ func (d *driver) runHistory(seed uint64, heights int, rep int) *histOut {
 		for c := 0; c < ncand; c++ {
 			prop := 1 + rng.Intn(numValidators)
 			// transactions: a random sub-sequence of the pool
-			var txs [][]byte
+			txs := append([][]byte{}, forced...)
 			for _, t := range pool {
 				if rng.Chance(3, 4) {
 					txs = append(txs, t)
 				}
 			}
 			lc := lcBase
-			if h > 1 && rng.Chance(1, 3) {
+			if rel > 1 && rng.Chance(1, 3) {
 				lc = d.commitInfo(rng, vs, w.tie)
 				lc.Round += 7 // differs from lcBase at least in the round
 			}
 			var ev []types.Misbehavior
-			if h > 2 && !evidenceUsed && !w.tie && rng.Chance(1, 12) {
+			if rel > 2 && !evidenceUsed && !w.tie && rng.Chance(1, 12) {
 				ks := vs.sortedKeys()
 				u := vs[ks[len(ks)-1]]
 				pk := ed25519.PubKey(u.PubKey.GetEd25519())
@@ -761,7 +856,7 @@ func (d *driver) runHistory(seed uint64, heights int, rep int) *histOut {
 		// the commit-info gap: a block equal to a valid candidate in header, txs and evidence but
 		// carrying different last-commit info (and therefore, in general, another state root).
 		var gap *cand
-		if d.gapMode && h > 1 {
+		if d.gapMode && rel > 1 {
 			for _, c := range cands {
 				if c.valid && rng.Chance(1, 2) {
 					lc2 := d.commitInfo(rng, vs, w.tie)
@@ -801,7 +896,7 @@ func (d *driver) runHistory(seed uint64, heights int, rep int) *histOut {
 			crashHeight = true
 			res.Count("height:decided-invalid")
 		}
-		if !crashHeight && h == int64(heights) && rng.Chance(1, 10) {
+		if !crashHeight && rel == int64(heights) && rng.Chance(1, 10) {
 			for _, c := range cands {
 				if !c.valid {
 					decided, crashHeight = c, true
@@ -927,7 +1022,7 @@ func (d *driver) runHistory(seed uint64, heights int, rep int) *histOut {
 
 		// ---- spec on the implementation for this height
 		hcase := func() []string {
-			return []string{fmt.Sprintf("history seed=%d heights=%d backend=%s%s", seed, h, w.backend, w.tieSuffix())}
+			return []string{fmt.Sprintf("history seed=%d heights=%d backend=%s%s", seed, rel, w.backend, w.variantSuffix())}
 		}
 		for _, c := range append(append([]*cand{}, cands...), gap) {
 			if c == nil {
@@ -1062,7 +1157,13 @@ func (d *driver) runHistory(seed uint64, heights int, rep int) *histOut {
 					bal = append(bal, a.Escrow.Active.Balance.String())
 				}
 				tree.Close()
-				fmt.Fprintf(os.Stderr, "DEBUG h=%d escrow=%v valupdates=%v\n", h, bal, valUpdatesSet(endResp.ValidatorUpdates))
+				fmt.Fprintf(os.Stderr, "DEBUG h=%d escrow=%v valupdates=%v govPhase=%d\n", h, bal, valUpdatesSet(endResp.ValidatorUpdates), g.govPhase)
+				if t2 := openTree(oracle); t2 != nil {
+					if p, err := governanceState.NewImmutableState(t2).Proposal(context.Background(), 1); err == nil {
+						fmt.Fprintf(os.Stderr, "DEBUG   proposal1 state=%s closesAt=%d results=%v\n", p.State, p.ClosesAt, p.Results)
+					}
+					t2.Close()
+				}
 			}
 		}
 		for _, ev := range decided.full.ev {
@@ -1071,6 +1172,28 @@ func (d *driver) runHistory(seed uint64, heights int, rep int) *histOut {
 		}
 		if len(out.failures) > 0 {
 			break
+		}
+	}
+
+	if tree := openTree(oracle); tree != nil {
+		gs := governanceState.NewImmutableState(tree)
+		for id := uint64(1); id <= 2; id++ {
+			if p, err := gs.Proposal(context.Background(), id); err == nil {
+				res.Count(fmt.Sprintf("gov:proposal-%d:%s", id, p.State))
+			}
+		}
+		tree.Close()
+	}
+	for _, r := range append([]*replica{oracle}, func() (l []*replica) {
+		for _, s := range sess {
+			l = append(l, s.r)
+		}
+		return
+	}()...) {
+		if r.upgrader != nil {
+			if pu, err := r.upgrader.PendingUpgrades(); err == nil {
+				res.Count(fmt.Sprintf("local-upgrade-store:pending=%d", len(pu)))
+			}
 		}
 	}
 
@@ -1132,6 +1255,7 @@ func main() {
 	gap := flag.Bool("gap", true, "also generate the commit-info gap scenario (reported as a finding counter)")
 	gapFail := flag.Bool("gap-as-failure", true, "a ProcessProposal that accepts a block differing from the cached one only in commit info although the executor rejects it is a failure (signature process-accepts-stale-commit-info)")
 	tie := flag.Bool("tie", false, "genesis variant with a durable stake tie at the validator election cut-off")
+	genesisHeight := flag.Int64("genesis-height", 1, "height of the first block (a dump-restore genesis starts above 1)")
 	conc := flag.Bool("concurrent", true, "CheckTx from a concurrent goroutine during block processing")
 	backends := flag.String("backends", "badger,pathbadger", "node database backends to alternate")
 	dump := flag.String("dump", "", "directory to write the model sessions of the first history to")
@@ -1164,6 +1288,9 @@ func main() {
 			if strings.Contains(lines[0], " tie") {
 				*tie = true
 			}
+			if i := strings.Index(lines[0], "genesis-height="); i >= 0 {
+				fmt.Sscanf(lines[0][i:], "genesis-height=%d", genesisHeight)
+			}
 			*replaySeed = s
 			if h > 0 {
 				*heights = h
@@ -1191,7 +1318,7 @@ func main() {
 	defer os.RemoveAll(base)
 	worlds := map[string]*world{}
 	for _, b := range bk {
-		w, err := newWorld(b, epochInterval, *tie)
+		w, err := newWorld(b, epochInterval, *tie, *genesisHeight)
 		if err != nil {
 			fmt.Fprintln(os.Stderr, "world:", err)
 			os.Exit(2)
@@ -1232,7 +1359,7 @@ func main() {
 			} else if !equalStrs(first, ho.appHashes) {
 				res.Fail(hlib.Failure{Kind: "spec", Sig: "apphash-chain-differs-between-runs", Seed: cs,
 					Detail: fmt.Sprintf("the same history gave AppHash chain %v on the first run and %v on run %d", first, ho.appHashes, rep),
-					Case:   []string{fmt.Sprintf("history seed=%d heights=%d backend=%s%s", cs, *heights, b, worlds[b].tieSuffix())}})
+					Case:   []string{fmt.Sprintf("history seed=%d heights=%d backend=%s%s", cs, *heights, b, worlds[b].variantSuffix())}})
 			}
 			if len(ho.failures) > 0 {
 				break
